@@ -75,6 +75,25 @@ def step (s : DSt) (line : String) : DSt × Option String :=
       | .sql q => let (q', o) := q.append (nat! r); (.sql q', o)
       | .ds d => let (d', o) := d.append (nat! r); (.ds d', o)
     (setInst s i' (offs ++ [off]), some ("append " ++ offToString off))
+  | ["pub", r] =>
+    -- a publish through a bus on top of the store: one record appended, visible to the handler of that publish
+    let (i, offs) := getInst s
+    let (i', n) : Inst × Nat := match i with
+      | .mem m => let m' := (m.append (nat! r)).1; (.mem m', m'.events.length)
+      | .sql q => let q' := (q.append (nat! r)).1; (.sql q', q'.rows.length)
+      | .ds d => let d' := (d.append (nat! r)).1; (.ds d', d'.msgs.length)
+    (setInst s i' offs, some s!"pub n={n} last={r}")
+  | ["replaypub", r] =>
+    -- the same publish made from the callback of a Replay over a non-empty log (which the callback then stops)
+    let (i, offs) := getInst s
+    let len : Nat := match i with | .mem m => m.events.length | .sql q => q.rows.length | .ds d => d.msgs.length
+    if len = 0 then (s, some "replaypub none")
+    else
+      let (i', n) : Inst × Nat := match i with
+        | .mem m => let m' := (m.append (nat! r)).1; (.mem m', m'.events.length)
+        | .sql q => let q' := (q.append (nat! r)).1; (.sql q', q'.rows.length)
+        | .ds d => let d' := (d.append (nat! r)).1; (.ds d', d'.msgs.length)
+      (setInst s i' offs, some s!"replaypub n={n} last={r}")
   | ["read", f, l] =>
     match resolveOff s f with
     | none => (s, some "read skip")
